@@ -119,6 +119,7 @@ class HTTPConnection(ConnectionInterface):
         delays = exponential_backoff(factor=RETRIES_BACKOFF_FACTOR)
 
         while True:
+            stream: NetworkStream | None = None
             try:
                 if self._uds is None:
                     kwargs = {
@@ -178,6 +179,13 @@ class HTTPConnection(ConnectionInterface):
                 delay = next(delays)
                 with Trace("retry", logger, request, kwargs) as trace:
                     self._network_backend.sleep(delay)
+            except BaseException:
+                # Eg. a cancellation inside a trace callback, once the stream
+                # has been opened. Nobody else knows about the stream yet.
+                if stream is not None:
+                    with ShieldCancellation():
+                        stream.close()
+                raise
 
     def can_handle_request(self, origin: Origin) -> bool:
         return origin == self._origin
